@@ -122,7 +122,9 @@ pub fn payload(seed: u64, tag: u64, index: u64, len: usize) -> Vec<u8> {
                     chunk[keep] = b;
                 }
                 5 => chunk.fill(0xFF),
-                _ => {}
+                // 7-bit ("text") bytes and low-nibble-only bytes: SIMD kernels that test sign bits or nibbles
+                6 => chunk.iter_mut().for_each(|b| *b &= 0x7F),
+                _ => chunk.iter_mut().for_each(|b| *b &= if bits & 64 == 0 { 0x0F } else { 0xFF }),
             }
             bits = bits.rotate_right(5) ^ 0x9E37_79B9;
         }
